@@ -137,6 +137,57 @@ theorem refs_before (n : Nat) (g : Nat → List Nat) (hc : Closed n g) (hacyc : 
   obtain ⟨r, hr⟩ := hacyc
   exact (order_topo hc hr).split (order_spec hc).1 heq
 
+/-! ## The property at full strength: a failing rule can be deleted without any other effect
+
+No assumption on `conv` (correlation rules included): `conv j avail` sees only which rules already
+have a result, and a failing rule never becomes one of them. -/
+
+theorem accounting_append (output : Nat → Bool) (conv : Nat → List Nat → Except E (List Q))
+    (pre post avail : List Nat) :
+    accounting output conv (pre ++ post) avail
+      = ((accounting output conv pre avail).1
+            ++ (accounting output conv post (availAfter conv pre avail)).1,
+         (accounting output conv pre avail).2
+            ++ (accounting output conv post (availAfter conv pre avail)).2) := by
+  induction pre generalizing avail with
+  | nil => simp [accounting, availAfter]
+  | cons i pre ih =>
+    simp only [List.cons_append, accounting, availAfter]
+    cases h : conv i avail with
+    | ok r => simp [ih, List.append_assoc]
+    | error e => simp [ih]
+
+/-- If rule `i` fails where it stands, then with error collection the queries are exactly those
+of the collection without rule `i`, and the errors are those of the collection without rule `i`
+plus the one record `(i, e)` at its position: nothing else changes. -/
+theorem failing_rule_removable (output : Nat → Bool)
+    (conv : Nat → List Nat → Except E (List Q)) (pre post avail : List Nat) (i : Nat) (e : E)
+    (hfail : conv i (availAfter conv pre avail) = .error e) :
+    (accounting output conv (pre ++ i :: post) avail).1
+        = (accounting output conv (pre ++ post) avail).1
+    ∧ (accounting output conv (pre ++ i :: post) avail).2
+        = (accounting output conv pre avail).2 ++ (i, e) ::
+            (accounting output conv post (availAfter conv pre avail)).2
+    ∧ (accounting output conv (pre ++ post) avail).2
+        = (accounting output conv pre avail).2 ++
+            (accounting output conv post (availAfter conv pre avail)).2 := by
+  rw [accounting_append, accounting_append]
+  simp [accounting, hfail]
+
+/-- the same at the level of `convertAll`: the outcome with the failing rule is the outcome without
+it, with one more error record -/
+theorem failing_rule_removable_convert (output : Nat → Bool)
+    (conv : Nat → List Nat → Except E (List Q)) (pre post : List Nat) (i : Nat) (e : E)
+    (hfail : conv i (availAfter conv pre []) = .error e) :
+    ∃ qs es1 es2,
+      convertAll true output conv (pre ++ post) [] [] [] = .ok qs (es1 ++ es2)
+      ∧ convertAll true output conv (pre ++ i :: post) [] [] [] = .ok qs (es1 ++ (i, e) :: es2) := by
+  obtain ⟨h1, h2, h3⟩ := failing_rule_removable output conv pre post [] i e hfail
+  refine ⟨(accounting output conv (pre ++ post) []).1, (accounting output conv pre []).2,
+    (accounting output conv post (availAfter conv pre [])).2, ?_, ?_⟩
+  · rw [convertAll_collect_accounting, h3]; simp
+  · rw [convertAll_collect_accounting, h1, h2]; simp
+
 /-! ## Non-vacuity: rule 1 fails, rule 3 (a correlation over 1 and 2) therefore too; rules 0 and 2
 are unaffected; rule 2 has its output flag off -/
 example :
@@ -147,6 +198,18 @@ example :
     convertAll true (fun i => i != 2) conv [0, 1, 2, 3] [] [] []
         = .ok ["q0"] [(1, "unsupported"), (3, "not available")] ∧
     convertAll false (fun i => i != 2) conv [0, 1, 2, 3] [] [] [] = .raised 1 "unsupported" := by
+  exact ⟨rfl, rfl⟩
+
+/-- non-vacuity of `failing_rule_removable_convert`: deleting the failing rule 1 of the example
+leaves `["q0"]` and the error of rule 3 -/
+example :
+    let conv : Nat → List Nat → Except String (List String) := fun i avail =>
+      if i = 1 then .error "unsupported"
+      else if i = 3 then (if avail.contains 1 && avail.contains 2 then .ok ["corr"] else .error "not available")
+      else .ok [s!"q{i}"]
+    conv 1 (availAfter conv [0] []) = .error "unsupported" ∧
+    convertAll true (fun i => i != 2) conv ([0] ++ [2, 3]) [] [] []
+        = .ok ["q0"] [(3, "not available")] := by
   exact ⟨rfl, rfl⟩
 
 end SigmaVerif.Props.C08
